@@ -714,4 +714,98 @@ theorem row_carries (o : Oracle) (s : S) (ps rows : List Row) (hp : s.pos) (hs :
   simp only [List.getElem?_map] at this
   rw [this, repeatParams_getElem _ s.len i j (by simpa using hi) hj, List.getElem?_map]
 
+/-! ## call histories of static samplers -/
+
+
+/-- whatever a static sampler hands out in a history of calls is one of the samples its wrapped sampler
+    produced in that history (in the call itself or in an earlier one) or the points it had saved before -/
+theorem staticRun_mem (interval : Option Nat) :
+    ∀ (freshs : List (List Row)) (st : Nat × Option (List Row)) (out : List Row),
+      out ∈ staticRun interval st freshs → out ∈ freshs ∨ st.2 = some out := by
+  intro freshs
+  induction freshs with
+  | nil => intro st out h; simp [staticRun] at h
+  | cons f fs ih =>
+    intro st out h
+    simp only [staticRun, List.mem_cons] at h
+    rcases h with h | h
+    · -- the first call
+      subst h
+      cases hc : st.2 with
+      | none => simp [staticStep, hc]
+      | some pts =>
+        by_cases hk : keepSaved interval (st.1 + 1) pts = true
+        · right; simp [staticStep, hc, hk]
+        · left; simp [staticStep, hc, hk]
+    · rcases ih _ out h with h' | h'
+      · left; simp [h']
+      · cases hc : st.2 with
+        | none => simp [staticStep, hc] at h'; left; simp [h']
+        | some pts =>
+          by_cases hk : keepSaved interval (st.1 + 1) pts = true
+          · right; simpa [staticStep, hc, hk] using h'
+          · left; simp [staticStep, hc, hk] at h'; simp [h']
+
+/-- a property that every sample of the wrapped sampler has (row count, carried rows, pairing, the product
+    structure …) holds for every output of every call history of the static sampler, for every resample interval -/
+theorem static_history (interval : Option Nat) (P : List Row → Prop) (freshs : List (List Row))
+    (hP : ∀ f ∈ freshs, P f) : ∀ out ∈ staticRun interval (0, none) freshs, P out := by
+  intro out h
+  rcases staticRun_mem interval freshs (0, none) out h with h | h
+  · exact hP out h
+  · simp at h
+
+/-- `static(A) * B` over a history: in every call the result has `len(A) * (rows of B's sample)` rows, whether the
+    static first factor resamples in that call or hands out saved points -/
+theorem static_first_factor_history (o : Oracle) (a : S) (interval : Option Nat) (L : Nat) (hp : a.pos) (hL0 : 0 < L)
+    (freshs : List (List Row))
+    (hf : ∀ f ∈ freshs, ∃ rb : List Row, rb.length = L ∧ a.sample o rb = .ok f) :
+    ∀ out ∈ staticRun interval (0, none) freshs, out.length = a.len * L := by
+  apply static_history
+  intro f hfm
+  obtain ⟨rb, hl, hs⟩ := hf f hfm
+  rw [rows_n o a rb f hp hs, hl]
+  congr 1; omega
+
+example : staticRun (some 2) (0, none) [[.ext 0 []], [.ext 1 []], [.ext 2 []], [.ext 3 []], [.ext 4 []]]
+    = [[.ext 0 []], [.ext 0 []], [.ext 2 []], [.ext 2 []], [.ext 4 []]] := by decide +kernel
+
+/-! ## negative result: the dependent ProductDomain of the pinned snapshot -/
+
+theorem depLoopOld_length (o : Oracle) (b : Dom) (n : Nat) (ps : List Row) :
+    ∀ (fuel r : Nat) (h out : List (Point × Row)), depLoopOld o b n ps fuel r h = some out → out.length = n := by
+  intro fuel
+  induction fuel with
+  | zero => intro r h out e; simp [depLoopOld] at e
+  | succ f ih =>
+    intro r h out e
+    simp only [depLoopOld] at e
+    split at e
+    · rename_i he; cases e; exact he
+    · split at e
+      · split at e
+        · cases e
+        · exact ih _ _ _ e
+      · cases e
+        simp only [List.length_take]; omega
+
+/-- whenever the pinned dependent ProductDomain returned, it went on with `n` points of its second factor IN
+    TOTAL, for every number of parameter rows -/
+theorem depBPointsOld_length (o : Oracle) (b : Dom) (n : Nat) (ps : List Row) (out : List (Point × Row))
+    (h : depBPointsOld o b n ps = some out) : out.length = n :=
+  depLoopOld_length o b n ps _ _ _ _ h
+
+/-- so with 3 parameter rows and n = 4 it returned 4 rows, not 12 — and all of them for parameter row 0 -/
+theorem depProductOld_4_3 :
+    (depBPointsOld { choose := fun _ => true, acc := fun _ _ => true, fuel := 3 } (.prim "t" 2 []) 4
+        [.ext 0 ["D"], .ext 1 ["D"], .ext 2 ["D"]]).map (fun l => l.map (·.2))
+      = some [.ext 0 ["D"], .ext 0 ["D"], .ext 0 ["D"], .ext 0 ["D"]] := by
+  decide +kernel
+
+/-- the repaired code: 12 points, 4 for each row -/
+theorem depProduct_4_3 :
+    ((Dom.prod (.prim "x" 1 ["t", "D"]) (.prim "t" 2 [])).sample (fun _ => true) 4
+        [.ext 0 ["D"], .ext 1 ["D"], .ext 2 ["D"]]).length = 12 := by
+  decide +kernel
+
 end TPV.Sampler
